@@ -1956,6 +1956,95 @@ func c19Forms(c *Ctx) {
 	}
 }
 
+// ---- del(K) followed by a NEW binding inside a construct that saves / restores / iterates names (counted loops and
+// for-in loops over K itself and over another name, function / lambda / named-function bodies, catch, if), left
+// normally, by break, by return and by an error. The body's last statement copies K into the witness w; between that read
+// and the one made after the construct there is no del(K): the two must be equal, and a further change must be refused
+// and leave K alone. (No reference semantics of the constructs is needed: the implementation against itself, at two
+// instants between which the property allows no change.) At top level and with K a local of a function.
+func c19Rebind(c *Ctx) {
+	constructs := []struct{ name, tmpl string }{
+		{"countedloop-on-K", "for K=2{BODY}"}, {"countedloop-on-K-3", "for K=3{BODY}"}, {"rangeloop-on-K", "for K=1:3{BODY}"}, {"forin-on-K", "for K=[5,6]{BODY}"},
+		{"forin-map-on-K", "for K={1:1,2:2}{BODY}"}, {"countedloop", "for i=2{BODY}"}, {"plainloop", "for 2{BODY}"}, {"forin", "for x=[5,6]{BODY}"},
+		{"whileloop", "n=0;for n<2{n=n+1;BODY}"}, {"func", "func(){BODY}()"}, {"lambda", "(()=>{BODY})()"}, {"namedfunc", "func nf(){BODY};nf()"},
+		{"func-2deep", "func(){func(){BODY}()}()"}, {"func-countedloop-on-K", "func(){for K=2{BODY}}()"}, {"func-forin-on-K", "func(){for K=[5,6]{BODY}}()"},
+		{"countedloop-on-K-func", "for K=2{func(){BODY}()}"}, {"catch", "catch(func(){BODY}())"}, {"if", "if true{BODY}"}, {"nested-loops-on-K", "for K=2{for K=2{BODY}}"},
+		{"func-param-other", "func(p){BODY}(1)"}, {"func-param-K", "func(K){BODY}(5)"}, {"lambda-param-K", "((K)=>{BODY})(5)"}, {"namedfunc-param-K", "func pf(K){BODY};pf(5)"}, {"recursive", "func rf(n){if n>0{rf(n-1)};BODY};rf(2)"},
+	}
+	bodies := []struct{ name, src string }{
+		{"rebind", "del(K);K=NEW;w=K"}, {"rebind-twice", "del(K);K=OLD;del(K);K=NEW;w=K"}, {"rebind-define", "del(K);K:=NEW;w=K"},
+		{"rebind-break", "del(K);K=NEW;w=K;break"}, {"rebind-return", "del(K);K=NEW;w=K;return 1"}, {"rebind-error", "del(K);K=NEW;w=K;error(\"out\")"},
+		{"rebind-then-refused", "del(K);K=NEW;w=K;catch(K=OLD)"},
+	}
+	values := [][2]string{{"7", "9"}, {"[1,2,3]", "[1,2,4]"}, {"0:10", "1:11"}, {"{1:1,2:2,3:3,4:4,5:5}", "{1:1,2:2,3:3,4:4,5:6}"}, {"1", "1.0"}, {"\"a\"", "7"}}
+	n, compared := 0, map[string]int{}
+	for _, noReg := range []bool{false, true} {
+		for _, cs := range constructs {
+			for _, b := range bodies {
+				if (b.name == "rebind-break" && !strings.Contains(cs.tmpl, "for ")) || (b.name == "rebind-return" && !strings.Contains(cs.tmpl, "func")) {
+					continue
+				}
+				for _, v := range values {
+					for _, where := range []string{"toplevel", "local"} {
+						for _, name := range []string{"K", "MAX_9"} {
+							body := strings.NewReplacer("NEW", v[1], "OLD", v[0]).Replace(b.src)
+							construct := strings.ReplaceAll(cs.tmpl, "BODY", body)
+							if b.name == "rebind-error" {
+								construct = "catch(func(){" + construct + "}())"
+							}
+							prog := fmt.Sprintf("w=\"never\";K=%s;%s;after=catch(K);r1=catch(K=%s);r2=catch(K=\"other\");res=[w,after.value,r1.err,r2.err,catch(K).value,after.err]", v[0], construct, v[0])
+							if where == "local" {
+								prog = "res=func(){" + strings.Replace(prog, "res=", "", 1) + "}()"
+							}
+							prog = strings.ReplaceAll(prog, "K", name)
+							se := newSession(noReg)
+							se.exec(prog)
+							c.Eval()
+							n++
+							line := "REBIND " + prog
+							get := func(e string) string {
+								if o, err := eval.EvalString(se.s, e, false); err == nil {
+									return exact(o)
+								}
+								return "-"
+							}
+							w, after, r1, r2, last := get("res[0]"), get("res[1]"), get("res[2]"), get("res[3]"), get("res[4]")
+							if w == "-" || w == "\"never\"" {
+								continue // the program as a whole was refused, or the body never reached its last statement: nothing to compare
+							}
+							mode := map[bool]string{false: "reg", true: "noreg"}[noReg]
+							if get("res[5]") == "true" {
+								// unbound after the construct: the del removed the outer binding and the new one was a local of the
+								// function body - nothing holds the name, so nothing can have changed
+								compared[cs.name+"/unbound-after"]++
+								continue
+							}
+							compared[cs.name]++
+							if strings.HasSuffix(cs.name, "-param-K") {
+								// a parameter named like the bound constant is refused; were it accepted, the body's K is the parameter
+								// and the constant outside must be what it was
+								if old := get(v[0]); after != old {
+									c.Fail("const-changed-leaving-"+cs.name+"-"+mode, line, fmt.Sprintf("%s: %s was %s before the call, %s after it", mode, name, old, after))
+								}
+								continue
+							}
+							if after != w {
+								c.Fail("const-changed-leaving-"+cs.name+"-"+mode, line, fmt.Sprintf("%s: %s was %s when the body of the construct last read it, %s after the construct, with no del in between (body %s, %s)", mode, name, w, after, b.name, where))
+								continue
+							}
+							if r1 != "true" || r2 != "true" || last != w {
+								c.Fail("const-changed-after-"+cs.name+"-"+mode, line, fmt.Sprintf("%s: after the construct %s=%s and %s=\"other\" report err=%s / %s and %s is %s, expected refusals and %s", mode, name, v[0], name, r1, r2, name, last, w))
+							}
+						}
+					}
+				}
+			}
+		}
+	}
+	c.Extra["rebind_programs"] = n
+	c.Extra["rebind_compared_by_construct"] = compared
+}
+
 func runC19(c *Ctx) {
 	log.SetLogLevelQuiet(log.Critical)
 	_ = extensions.Init(nil) // defines the identifier nil (and PI, E: not used as names here)
@@ -1973,6 +2062,8 @@ func runC19(c *Ctx) {
 				evs = append(evs, decEvent(e))
 			}
 			c19Seq(c, strings.Split(f[3], ","), evs)
+		} else if len(f) > 0 && f[0] == "REBIND" {
+			c19Rebind(c)
 		} else {
 			fmt.Println("bad replay case")
 		}
@@ -1981,6 +2072,7 @@ func runC19(c *Ctx) {
 	c19Raw(c)
 	c19Callables(c)
 	c19Forms(c)
+	c19Rebind(c)
 	ns, seqs := corpus()
 	for i := range seqs {
 		c19Seq(c, ns[i], seqs[i])
